@@ -641,8 +641,10 @@ func MatchEvents(exp []ExpEv, trace []script.Event) string {
 			if g.Written != e.Writ {
 				return fmt.Sprintf("after op %d.%d %s Written() = %d, want %d (rows actually delivered)", g.Idx, g.Op, g.OpK, g.Written, e.Writ)
 			}
-			if g.Out0 >= 0 && (g.Out1 > g.Out0) != e.Emits {
-				return fmt.Sprintf("op %d.%d %s (err=%v) added %d byte(s) to the server stream, want emits=%v", g.Idx, g.Op, g.OpK, g.IsErr, g.Out1-g.Out0, e.Emits)
+			// only the "emits nothing" direction is checked at the transport: bytes that must appear are
+			// compared in the transcript (a server is free to coalesce its output before it waits for input)
+			if g.Out0 >= 0 && g.Out1 > g.Out0 && !e.Emits {
+				return fmt.Sprintf("op %d.%d %s (err=%v) added %d byte(s) to the server stream, but a failing operation must emit nothing", g.Idx, g.Op, g.OpK, g.IsErr, g.Out1-g.Out0)
 			}
 		case "copy.read":
 			if g.IsErr != e.IsErr || g.EOF != e.EOF {
